@@ -48,8 +48,12 @@ def run(ctx, log):
     vocab = noise.vocabulary()
     nprog = 400 if ctx.quick else 6000
     srcs, asts = progcheck.gen_sources(ctx, nprog, max_depth=3)
-    cand = list(DIRECTED) + srcs
-    kinds = ["directed"] * len(DIRECTED) + ["generated"] * len(srcs)
+    import importlib
+    nested = importlib.import_module("props.c09").nested_templates()
+    sweep = [src for _, _, src in progcheck.layout_sweep(list(range(0, 600, 1 if not ctx.quick else 3)) + list(range(1300, 1400)))]
+    order = progcheck.evaluation_order_family()
+    cand = list(DIRECTED) + nested + order + sweep + srcs
+    kinds = ["directed"] * (len(DIRECTED) + len(nested) + len(order)) + ["layout-sweep"] * len(sweep) + ["generated"] * len(srcs)
     for a in asts:
         toks = nlast.print_program(a)
         for _ in range(6 if ctx.quick else 10):
@@ -119,6 +123,11 @@ def run(ctx, log):
         h = progcheck.head(o)
         if h not in ("OK i%d" % val, "ERR Type") and not h.startswith("BUDGET"):
             ctx.violate("a recursion that drives the operand stack to its limit left the machine's memory / computed from a wrapped base pointer", source=s, observed=o[:200], expected="OK i%d or ERR Type" % val)
+    for src, exp in progcheck.big_program_family():
+        o = vlib.nlh("eval", ["3000000 " + vlib.hexs(src)], tag="c02big", timeout=300)[0]
+        ctx.seen(("big", len(src)))
+        if progcheck.head(o) not in (exp, "ERR Syntax"):
+            ctx.violate("a program whose code crosses 64 KiB made the machine jump or fetch outside its code", source="(array literal program of %d characters)" % len(src), observed=o[:200], expected=exp + " or ERR Syntax")
     sample_n = 500 if ctx.quick else 5000
     pick = list(range(len(run_src)))
     rng.shuffle(pick)
